@@ -212,7 +212,9 @@ func (m *collection) mergerWaitForWork(pings []ping) (
 
 	m.m.Lock()
 
-	if m.stackDirtyTop == nil || m.stackDirtyTop.isEmpty() {
+	// A non-nil stackDirtyTop means a batch was executed; even when it
+	// holds no data it might have created or deleted child collections.
+	if m.stackDirtyTop == nil {
 		m.waitDirtyIncomingCh = make(chan struct{})
 		waitDirtyIncomingCh = m.waitDirtyIncomingCh
 	}
